@@ -232,6 +232,9 @@ pub struct LogBuilder<W: Write> {
     output: BufWriter<W>,
     bytes_written: u64,
     setsum: Setsum,
+    // Set once a write or flush failed:  the stream may end in a torn frame, so nothing appended
+    // after it could ever be read back.
+    poisoned: bool,
 }
 
 impl LogBuilder<File> {
@@ -252,7 +255,7 @@ impl LogBuilder<File> {
     /// fsync the log builder.
     pub fn fsync(&mut self) -> Result<(), SError> {
         FSYNC.click();
-        io_result_with_context(self.output.flush(), "log builder flush")?;
+        self.flush()?;
         io_result_with_context(self.output.get_mut().sync_data(), "log builder sync_data")
     }
 }
@@ -266,18 +269,27 @@ impl<W: Write> LogBuilder<W> {
             output,
             bytes_written: 0,
             setsum: Setsum::default(),
+            poisoned: false,
         })
     }
 
     /// Flush the log to the OS.  This does not call fsync.
     pub fn flush(&mut self) -> Result<(), SError> {
-        io_result_with_context(self.output.flush(), "log builder flush")
+        if self.poisoned {
+            return Err(corruption_log_poisoned());
+        }
+        let res = io_result_with_context(self.output.flush(), "log builder flush");
+        self.poisoned = res.is_err();
+        res
     }
 
     /// Append a write batch to the log.
     pub fn append(&mut self, write_batch: &WriteBatch) -> Result<(), SError> {
         if write_batch.buffer.is_empty() {
             return Err(empty_batch());
+        }
+        if self.poisoned {
+            return Err(corruption_log_poisoned());
         }
         assert_ne!(write_batch.setsum, Setsum::default());
         self._append(&write_batch.buffer)?;
@@ -361,7 +373,10 @@ impl<W: Write> LogBuilder<W> {
     }
 
     fn write(&mut self, buffer: &[u8]) -> Result<(), SError> {
-        io_result_with_context(self.output.write_all(buffer), "log write_all")?;
+        if let Err(err) = io_result_with_context(self.output.write_all(buffer), "log write_all") {
+            self.poisoned = true;
+            return Err(err);
+        }
         self.bytes_written += buffer.len() as u64;
         Ok(())
     }
